@@ -435,8 +435,6 @@ class SchemaGen:
                 fl.type, fl.label = vt, "repeated"
             elif r < 0.50:
                 vt, imp = self._type_choice(f, visible_files, msg_index, enum_index)
-                while vt.startswith(".google.protobuf.") and vt.split(".")[-1] in WRAPPER_TYPES:
-                    vt, imp = self._type_choice(f, visible_files, msg_index, enum_index)
                 fl.type, fl.label = vt, "optional"
             elif r < 0.70 and pending_oneof:
                 o = rng.choice(list(pending_oneof))
